@@ -6,13 +6,13 @@ import LitexModel.Csr.Layout
 namespace Litex.Csr
 open Litex
 
-theorem wordOrder_length (ord : Ordering) (n : Nat) : (wordOrder ord n).length = n := by
+theorem wordOrder_length (ord : WordOrdering) (n : Nat) : (wordOrder ord n).length = n := by
   cases ord <;> simp [wordOrder]
 
-theorem wordPos_lt (ord : Ordering) (n j : Nat) (h : j < n) : wordPos ord n j < n := by
+theorem wordPos_lt (ord : WordOrdering) (n j : Nat) (h : j < n) : wordPos ord n j < n := by
   cases ord <;> simp [wordPos] <;> omega
 
-theorem wordOrder_wordPos (ord : Ordering) (n j : Nat) (h : j < n) :
+theorem wordOrder_wordPos (ord : WordOrdering) (n j : Nat) (h : j < n) :
     (wordOrder ord n)[wordPos ord n j]? = some j := by
   cases ord
   · simp only [wordOrder, wordPos]
@@ -24,7 +24,7 @@ theorem wordOrder_wordPos (ord : Ordering) (n j : Nat) (h : j < n) :
   · simp only [wordOrder, wordPos]
     rw [List.getElem?_range h]
 
-theorem wordOrder_inv (ord : Ordering) (n p j : Nat) (h : (wordOrder ord n)[p]? = some j) :
+theorem wordOrder_inv (ord : WordOrdering) (n p j : Nat) (h : (wordOrder ord n)[p]? = some j) :
     j < n ∧ p = wordPos ord n j := by
   have hp : p < n := by
     have := (List.getElem?_eq_some_iff.mp h).1
@@ -43,17 +43,17 @@ theorem wordOrder_inv (ord : Ordering) (n p j : Nat) (h : (wordOrder ord n)[p]? 
     simp only [wordPos]
     omega
 
-theorem regSimples_length (bw : Nat) (ord : Ordering) (k : Nat) (r : RegSpec) :
+theorem regSimples_length (bw : Nat) (ord : WordOrdering) (k : Nat) (r : RegSpec) :
     (regSimples bw ord k r).length = regWords bw r := by
   unfold regSimples regWords
   cases r.kind <;> simp [wordOrder_length]
 
-theorem posIn_lt (bw : Nat) (ord : Ordering) (r : RegSpec) (j : Nat) (h : j < regWords bw r) :
+theorem posIn_lt (bw : Nat) (ord : WordOrdering) (r : RegSpec) (j : Nat) (h : j < regWords bw r) :
     posIn bw ord r j < regWords bw r := by
   unfold posIn regWords at *
   cases hk : r.kind <;> simp [hk] at h ⊢ <;> exact wordPos_lt _ _ _ h
 
-theorem regSimples_lookup (bw : Nat) (ord : Ordering) (k : Nat) (r : RegSpec) (j : Nat)
+theorem regSimples_lookup (bw : Nat) (ord : WordOrdering) (k : Nat) (r : RegSpec) (j : Nat)
     (h : j < regWords bw r) :
     (regSimples bw ord k r)[posIn bw ord r j]? = some (mkSimple bw ord k r j) := by
   unfold regSimples posIn regWords at *
@@ -62,7 +62,7 @@ theorem regSimples_lookup (bw : Nat) (ord : Ordering) (k : Nat) (r : RegSpec) (j
   · exact ⟨j, wordOrder_wordPos _ _ _ h, rfl⟩
   · simp [mkSimple, hk]
 
-theorem regSimples_inv (bw : Nat) (ord : Ordering) (k : Nat) (r : RegSpec) (p : Nat) (sc : Simple)
+theorem regSimples_inv (bw : Nat) (ord : WordOrdering) (k : Nat) (r : RegSpec) (p : Nat) (sc : Simple)
     (h : (regSimples bw ord k r)[p]? = some sc) :
     ∃ j, j < regWords bw r ∧ sc = mkSimple bw ord k r j ∧ p = posIn bw ord r j := by
   unfold regSimples posIn regWords at *
@@ -80,14 +80,14 @@ theorem regSimples_inv (bw : Nat) (ord : Ordering) (k : Nat) (r : RegSpec) (p : 
     simp at h
     exact ⟨h.symm, rfl⟩
 
-theorem simplesFrom_length (bw : Nat) (ord : Ordering) (k0 : Nat) (regs : List RegSpec) :
+theorem simplesFrom_length (bw : Nat) (ord : WordOrdering) (k0 : Nat) (regs : List RegSpec) :
     (simplesFrom bw ord k0 regs).length = regBase bw regs regs.length := by
   induction regs generalizing k0 with
   | nil => simp [simplesFrom, regBase]
   | cons r rs ih => simp [simplesFrom, regBase, regSimples_length, ih]
 
 /-- Word `j` of register `k` sits at index `regBase k + posIn j`. -/
-theorem simplesFrom_lookup (bw : Nat) (ord : Ordering) (regs : List RegSpec) (k0 k j : Nat)
+theorem simplesFrom_lookup (bw : Nat) (ord : WordOrdering) (regs : List RegSpec) (k0 k j : Nat)
     (hk : k < regs.length) (hj : j < regWords bw (regs.getD k default)) :
     (simplesFrom bw ord k0 regs)[regBase bw regs k + posIn bw ord (regs.getD k default) j]? =
       some (mkSimple bw ord (k0 + k) (regs.getD k default) j) := by
@@ -113,7 +113,7 @@ theorem simplesFrom_lookup (bw : Nat) (ord : Ordering) (regs : List RegSpec) (k0
       omega
 
 /-- Every populated index is the index of exactly one (register, word) pair. -/
-theorem simplesFrom_inv (bw : Nat) (ord : Ordering) (regs : List RegSpec) (k0 a : Nat) (sc : Simple)
+theorem simplesFrom_inv (bw : Nat) (ord : WordOrdering) (regs : List RegSpec) (k0 a : Nat) (sc : Simple)
     (h : (simplesFrom bw ord k0 regs)[a]? = some sc) :
     ∃ k j, k < regs.length ∧ j < regWords bw (regs.getD k default) ∧
       sc = mkSimple bw ord (k0 + k) (regs.getD k default) j ∧
@@ -137,13 +137,13 @@ theorem simplesFrom_inv (bw : Nat) (ord : Ordering) (regs : List RegSpec) (k0 a 
         rw [regSimples_length] at hp ha
         omega
 
-theorem simpleCsrs_lookup (bw : Nat) (ord : Ordering) (regs : List RegSpec) (k j : Nat)
+theorem simpleCsrs_lookup (bw : Nat) (ord : WordOrdering) (regs : List RegSpec) (k j : Nat)
     (hk : k < regs.length) (hj : j < regWords bw (regs.getD k default)) :
     (simpleCsrs bw ord regs)[addrOf bw ord regs k j]? = some (mkSimple bw ord k (regs.getD k default) j) := by
   have := simplesFrom_lookup bw ord regs 0 k j hk hj
   simpa [simpleCsrs, addrOf] using this
 
-theorem simpleCsrs_inv (bw : Nat) (ord : Ordering) (regs : List RegSpec) (a : Nat) (sc : Simple)
+theorem simpleCsrs_inv (bw : Nat) (ord : WordOrdering) (regs : List RegSpec) (a : Nat) (sc : Simple)
     (h : (simpleCsrs bw ord regs)[a]? = some sc) :
     ∃ k j, k < regs.length ∧ j < regWords bw (regs.getD k default) ∧
       sc = mkSimple bw ord k (regs.getD k default) j ∧ a = addrOf bw ord regs k j := by
@@ -151,18 +151,18 @@ theorem simpleCsrs_inv (bw : Nat) (ord : Ordering) (regs : List RegSpec) (a : Na
   exact ⟨k, j, hk, hj, by simpa using hsc, by simpa [addrOf] using ha⟩
 
 /-- `mkSimple` remembers its register; for compound CSRs also its word. -/
-theorem mkSimple_reg (bw : Nat) (ord : Ordering) (k : Nat) (r : RegSpec) (j : Nat) :
+theorem mkSimple_reg (bw : Nat) (ord : WordOrdering) (k : Nat) (r : RegSpec) (j : Nat) :
     (mkSimple bw ord k r j).reg = k := by
   unfold mkSimple; cases r.kind <;> rfl
 
-theorem mkSimple_word (bw : Nat) (ord : Ordering) (k : Nat) (r : RegSpec) (j : Nat)
+theorem mkSimple_word (bw : Nat) (ord : WordOrdering) (k : Nat) (r : RegSpec) (j : Nat)
     (hj : j < regWords bw r) : (mkSimple bw ord k r j).word = j := by
   unfold mkSimple regWords at *
   cases hk : r.kind <;> simp [hk] at hj ⊢
   omega
 
 /-- **No two registers (or words) share an address.** -/
-theorem addrOf_injective (bw : Nat) (ord : Ordering) (regs : List RegSpec) (k j k' j' : Nat)
+theorem addrOf_injective (bw : Nat) (ord : WordOrdering) (regs : List RegSpec) (k j k' j' : Nat)
     (hk : k < regs.length) (hj : j < regWords bw (regs.getD k default))
     (hk' : k' < regs.length) (hj' : j' < regWords bw (regs.getD k' default))
     (h : addrOf bw ord regs k j = addrOf bw ord regs k' j') : k = k' ∧ j = j' := by
@@ -178,7 +178,7 @@ theorem addrOf_injective (bw : Nat) (ord : Ordering) (regs : List RegSpec) (k j 
   rw [mkSimple_word _ _ _ _ _ hj, mkSimple_word _ _ _ _ _ hj'] at this
   exact ⟨rfl, this.symm⟩
 
-theorem addrOf_lt (bw : Nat) (ord : Ordering) (regs : List RegSpec) (k j : Nat)
+theorem addrOf_lt (bw : Nat) (ord : WordOrdering) (regs : List RegSpec) (k j : Nat)
     (hk : k < regs.length) (hj : j < regWords bw (regs.getD k default)) :
     addrOf bw ord regs k j < (simpleCsrs bw ord regs).length := by
   have h1 := simpleCsrs_lookup bw ord regs k j hk hj
